@@ -102,6 +102,7 @@ type EntrySpec struct {
 	Sched       bool              `json:"sched"`
 	Preempt     int               `json:"preempt"`
 	Overrides   map[string]string `json:"overrides"`
+	Borrowed    bool              `json:"borrowed"` // copied from another property's check: optional if its harness file breaks
 	Params      map[string]int    `json:"params"`
 	NoInit      bool              `json:"no_init"`
 	MaxPaths    int               `json:"max_paths"`
